@@ -424,6 +424,10 @@ def prompt_pass(rng, sc, tier, ev, maxlen=None):
     import itertools
     lha = V.lha_binary("plain")
     t = Tree(random.Random(7), tier)
+    # (a dangerous link comes first: when the input ends at a prompt the tool is gone before the link is made, and what stays behind is its
+    #  placeholder - an empty file only the owner can touch)
+    t.members.append(arc.unix_symlink(b"lnk", b"../x", level=2))
+    t.items.append({"p": b"lnk", "ty": "unsafe", "t": b"../x"})
     for nm, data in ((b"f1", b"new one"), (b"f2", b"new two!"), (b"d/f3", b"new three"), (b"f4", b"4")):
         if nm == b"d/f3":
             t.members.append(arc.unix_dir(b"d", level=1, perms=0o40755, time=1000000000))
